@@ -48,3 +48,41 @@ Definition nbns_answer_name (b : slice) : res (option bytes) :=
   | Panic => Panic
   | Fuel => Fuel
   end.
+
+(* ------------------------------------------------------------------ *)
+(* encodeNBNSName / decodeNBNSName (nbns.go:48-118): RFC 1001 first-level encoding *)
+
+(* byte subtraction b - 'A' on uint8 *)
+Definition u8sub (a b : N) : N := (a + 256 - b) mod 256.
+
+(* ((buf[i] - 'A') << 4) | (buf[i+1] - 'A') on uint8 *)
+Definition nb_char (a b : N) : N := N.lor (u8 (N.shiftl (u8sub a 65) 4)) (u8sub b 65).
+
+(* for i := 0; i < 32; i = i + 2 { raw[i/2] = ... } *)
+Fixpoint nb_chars (buf : slice) (i : nat) (todo : nat) (acc : bytes) : res bytes :=
+  match todo with
+  | O => Ok acc
+  | S t =>
+      a <- idx buf i ;;
+      b <- idx buf (i + 1) ;;
+      nb_chars buf (i + 2) t (acc ++ [nb_char a b])
+  end.
+
+Definition decodeNBNSName (buf : slice) : res (nat * bytes) :=
+  if Nat.ltb (len buf) 34 then Err EOther
+  else
+    last <- idx buf (len buf - 1) ;;
+    if negb (last =? 0) then Err EParseFrame
+    else
+      b0 <- idx buf 0 ;;
+      if negb (b0 =? 32) then Err EParseFrame
+      else
+        buf1 <- slfrom buf 1 ;;
+        name <- nb_chars buf1 0 16 [] ;;
+        Ok (len buf1, trim_right 32 name).
+
+(* name longer than 16: name[:15]; shorter: padded with spaces; 0x20, two letters per byte, 0x00 *)
+Definition encodeNBNSName (name : bytes) : bytes :=
+  let n1 := if Nat.ltb 16 (length name) then firstn 15 name else name in
+  let n2 := if Nat.ltb (length n1) 16 then n1 ++ repeat 32 (16 - length n1) else n1 in
+  32 :: flat_map (fun c => [65 + N.shiftr c 4; 65 + N.land c 15]) n2 ++ [0].
